@@ -26,6 +26,9 @@ class _Finder(importlib.abc.MetaPathFinder, importlib.abc.Loader):
 
     def find_spec(self, name, path=None, target=None):
         if name == DEFMOD:
+            return importlib.machinery.ModuleSpec(name, self, is_package=True)
+        if name == DEFMOD + ".inner":
+            # a submodule that importing the package does not load: Deferred["pkg.inner.K"] has to import it when a class of the package shows up
             return importlib.machinery.ModuleSpec(name, self)
         return None
 
@@ -59,7 +62,12 @@ def build13(term, W):
     k = term[0]
     if k == "Def":
         sys.modules.pop(DEFMOD, None)
+        sys.modules.pop(DEFMOD + ".inner", None)
         return Deferred[f"{DEFMOD}.K{term[1]}"]
+    if k == "DefSub":
+        sys.modules.pop(DEFMOD, None)
+        sys.modules.pop(DEFMOD + ".inner", None)
+        return Deferred[f"{DEFMOD}.inner.K{term[1]}"]
     if k in ("U", "I"):
         ctor = OT.Union if k == "U" else OT.Intersection
         return ctor[tuple(build13(t, W) for t in term[1:])]
@@ -68,7 +76,7 @@ def build13(term, W):
 
 def member13(term, i, W):
     k = term[0]
-    if k == "Def":
+    if k in ("Def", "DefSub"):
         return W.rel(i, term[1])
     if k == "U":
         return z3.Or([member13(t, i, W) for t in term[1:]])
@@ -80,6 +88,8 @@ def member13(term, i, W):
 def tstr(term):
     if term[0] == "Def":
         return f"Deferred['{DEFMOD}.K{term[1]}']"
+    if term[0] == "DefSub":
+        return f"Deferred['{DEFMOD}.inner.K{term[1]}']"
     if term[0] in ("U", "I"):
         return ("Union[" if term[0] == "U" else "Intersection[") + ", ".join(tstr(t) for t in term[1:]) + "]"
     return term_str(term)
@@ -125,8 +135,12 @@ def make_run(W, shape, known_active=None):
                 ov.register(hs[0], priority=0)
                 ov.register(hs[1], priority=-1)
                 out, res = outcome_of(lambda: ov.dispatch(inst), LOG)
+            except Exception as e:  # noqa: BLE001  the subtype test / isinstance itself failed: neither "matches" nor "does not match"
+                info = dict(type=tstr(T), value_class=f"K{c}" if c != n else "object", raised=f"{type(e).__name__}: {e}"[:160])
+                return Verdict(False, (), info, ["raised"], nontrivial=True)
             finally:
                 sys.modules.pop(DEFMOD, None)
+                sys.modules.pop(DEFMOD + ".inner", None)
             m = member13(T, c, W)
             ran_t = out == ("ran", 0)
             sane = out in (("ran", 0), ("ran", 1))
@@ -156,7 +170,7 @@ def universe(n, depth):
     t = K + [("obj",)]
     t += [("U", x, y) for x, y in pairs] + [("I", x, y) for x, y in pairs]
     t += [("Ex", k) for k in K[:2]] + [("Ex", ("obj",))] + [("SS", k) for k in K[:2]] + [("SS", ("obj",))]
-    t += [("HM", "hm"), ("Def", 0), ("Def", 1)]
+    t += [("HM", "hm"), ("Def", 0), ("Def", 1), ("DefSub", 0), ("DefSub", 1)]
     if depth >= 2:
         a, b, c = K[0], K[1], K[2 % n]
         t += [("U", ("I", a, b), c), ("I", ("U", a, b), c), ("U", ("Ex", a), b), ("U", ("Ex", a), ("SS", a)),
